@@ -37,9 +37,24 @@ PROPS = {
     "C04": dict(engine="e1", quick=10000, thorough=200000, level="exploration",
                 text="Programs with untracked reads of harness-controlled cells; after each cell change + synthetic write of any durability: values = reference, every untracked function reachable from a request executed in that revision, and dependents of an untracked function that returned an equal value are not re-executed (justification model).",
                 note="Acyclic classes only are alarm-free; the cyclic class carries the known finding (untracked read by a cycle participant)."),
+    "C05": dict(engine="e1", quick=8000, thorough=150000, level="exploration",
+                text="Programs with q_lru sub-nodes under request/write/set_lru_capacity/trigger_lru_eviction histories; transparency: values = reference; an exact list model of record-use/pop-front predicts which values are evicted: a predicted-evicted value must be recomputed when (and only when) it is next requested, a predicted-retained one is re-executed only for a changed dependency, and after every revision start/trigger the number of cached q_lru values (memory_usage heap accounting) equals the model's.",
+                note="accumulated() refreshes every transitive callee and thereby recomputes evicted values; this is treated as a request. Model trusted: hashlink insert = move-to-back."),
     "C06": dict(engine="e1", quick=10000, thorough=200000, level="exploration",
                 text="Makers create 0..k tracked structs conditionally with colliding identity values; oracle over probes/events: same (creator, ident, occurrence) in consecutive executions keeps its id, ids of live structs are pairwise distinct across logical identities, dropped structs are discarded (DidDiscard) and disappear from entries(), functions keyed by a kept struct re-execute only when a tracked field they read changed.",
                 note="Identity hash is honest (hash_mod=0) in this class; bad-hash behaviour is out of scope."),
+    "C07": dict(engine="e1", quick=8000, thorough=150000, level="exploration",
+                text="Churn of tracked structs and interned values (revisions=1..3, all values in one shard) with functions keyed by structs, interned values and (Key,u32) tuples; values = reference (fields encode logical identity so an aliased read differs); whenever a slot is observed with a higher generation every memo of the older generation must already have been discarded; dependents re-execute per the justification model.",
+                note="Slot/generation observation relies on ids seen by probes and events; multi-argument key interning is only covered by the value oracle."),
+    "C09": dict(engine="e1", quick=8000, thorough=150000, level="exploration",
+                text="Interning into It1/It2/It3/ItInf under LOW-only, mixed and MEDIUM/HIGH durabilities with revision bursts; every DidReuseInternedValue is checked one-sidedly against the retention rule (not immortal type, not certainly-durable, enough active revisions, last use older than the r most recent active revisions under the most permissive reading); identities of non-reclaimed values are kept; handles are canonical.",
+                note="Active-revision set is bracketed (any activity >= true >= events of the type); alarms only under the permissive bound, exact threshold reported as a diagnostic."),
+    "C10": dict(engine="e1", quick=8000, thorough=150000, level="exploration",
+                text="Makers conditionally specify q_spec for structs they create (before/after computing it themselves, foreign structs, twice); consumers read through returned handles in both orders; values = reference encoding the statement; the two panics must occur exactly when the program does those things.",
+                note="Reference semantics of specify transcribed from the property statement."),
+    "C11": dict(engine="e1", quick=8000, thorough=150000, level="exploration",
+                text="Conditional accumulation at several depths; accumulated() at random points of histories that make accumulating nodes backdate, be shallow/deep verified, partially reused or NEVER_CHANGE; the returned vector must equal the reference DFS order exactly.",
+                note="Reference DFS order transcribed from the documented order (own values, then callees in first-call order, each once)."),
 }
 
 COMPONENTS = {
